@@ -31,6 +31,16 @@ Supported
                (dom Q only): `arr[i]` with an integer index expression (int literals, int names, + - *)
                becomes `(qnth arr i)`, comparisons between integer expressions use Z.eqb/Z.ltb/Z.leb, and
                `np.prod([e for k in range(n)])` becomes `(qprod_range (fun k : Z => e) n)` (Base/QArr.v).
+  C18/C20 ext : all opt-in per function and fail-closed --
+               `attr_tail` "self.x": straight-line method of `self.y = e` / local assignments; every attribute
+               assignment becomes a let (later reads of self.y see it) and the definition's value is what the method
+               leaves in self.x (used to translate __init__ and initialisation() of the Parameters classes);
+               `nested_defs`: inner `def f(x): ...` becomes `let f := fun x => ...` (refused if a captured name is
+               re-assigned later); `elementwise` {"arrays", "uninit"}: numpy code read pointwise --
+               np.ones(len(arr), dtype=bool) = true, `arr[mask] = v` = if mask then v else arr,
+               np.divide(x, y, where=m) = if m then x/y else <uninit>; `subst` {python source text: Coq term};
+               `join_live_only`: an if/else without return joins only the variables read afterwards;
+               `kind` in {lambda_kw, class_guards, assign_rhs, return_rhs}: see harness/py2coq_fourier.py.
   domains    : "Z" (Python int), "Q" (exact rationals standing for floats), "R" (reals).
 """
 from __future__ import annotations
